@@ -285,9 +285,11 @@ func (gb GenBank) String() string {
 	}
 
 	b.WriteString("FEATURES             Location/Qualifiers\n")
-	fmtr := INSDCFormatter{gb.Table, "     ", 21}
-	fmtr.WriteTo(&b)
-	b.WriteByte('\n')
+	if len(gb.Table) > 0 {
+		fmtr := INSDCFormatter{gb.Table, "     ", 21}
+		fmtr.WriteTo(&b)
+		b.WriteByte('\n')
+	}
 
 	if gb.Fields.Contig.String() != "" {
 		b.WriteString(fmt.Sprintf("CONTIG      %s\n", gb.Fields.Contig))
